@@ -89,6 +89,14 @@ def run(ck):
     with ck.under("C03-", "C06-C03"):
         c03.rule_V(ck, lib)
         c03.rule_N(ck, lib)
+    # a header in the wrong form (query on a command-only node) and an empty unit are faults too: no handler runs and the
+    # fault is reported (the slot rule of C01 and the `no call only for an empty message` rule of C02)
+    import c01
+    import parsefields
+    import skeleton
+    with ck.under("C01-", "C06-C01"):
+        c01.rule_X(ck, lib)
+    parsefields.check(ck, lib, skeleton.Skeleton(ck, lib), "C06-F", ("empty",))
 
 
 def rule_R(ck, lib, RID):
